@@ -79,6 +79,19 @@ def build_jobs(tier, seed, kf_on):
                                           {"kind": "fn", "fn": "vf.checks.c27:ref_window_chain", "args": ["w", steps], "label": "window reference step after step"}, kf_on, tier,
                                           assume=[("distinct", "w", ["g", "o"]), ("distinct", "w", ["g", "p"])], max_paths=4000 if tier == "quick" else 30000,
                                           wall_s=60 if tier == "quick" else 600))
+    # whole-partition aggregates written into an ORDERED window: where the builder accepts the step, every row must get its partition's
+    # aggregate (not a running value); where it rejects the step there is nothing to decide
+    for label, ops_, aggs in (("mean_size", {"m": "x.mean()", "n": "_size()"}, [("m", "mean", "x"), ("n", "size", None)]),
+                              ("sum_max", {"s": "x.sum()", "mx": "x.max()"}, [("s", "sum", "x"), ("mx", "max", "x")])):
+        for part, order, rev in ((["g"], ["o"], []), ([], ["o", "p"], ["p"])):
+            src = f"{T}.extend({ops_!r}, partition_by={part!r}, order_by={order!r}, reverse={rev!r})"
+            if progs.try_build(src) is None:
+                continue
+            ref = {"kind": "fn", "fn": "vf.sym.refsem:ref_window_group", "args": ["w", part, aggs], "label": "partition aggregate on every row"}
+            for n in (2, 3):
+                for bname, side in (("pandas", {"kind": "pandas", "src": src}), ("sqlite", {"kind": "sql", "src": src, "dialect": "sqlite"})):
+                    jobs.append(simple.tv_job(f"group_aggregate_in_ordered_window/{label} part={part}:{bname}@{n}", SCHEMA, {"w": n}, side, ref, kf_on, tier,
+                                              assume=[("distinct", "w", part + order)], max_paths=4000, wall_s=60))
     ns = [1, 2, 3] if tier == "quick" else [1, 2, 3, 4]
     groups = [["cumsum", "row_number", "shift1"], ["cummax", "cummin", "lead1", "shift2"]]
     # the window step directly after a plain extend that overwrites / creates the column it orders or partitions by ("in the declared order"
